@@ -40,7 +40,7 @@ Definition no_nl (t : str) : bool := negb (existsb (N.eqb 10) t).
 Record piece := mkPiece { p_pre : str; p_text : str; p_post : str }.
 Definition piece_ok (p : piece) : bool :=
   is_indent (p_pre p) && is_indent (p_post p) && no_nl (p_text p)
-  && (null (p_pre p) || str_eqb (trim_left (p_text p)) (p_text p)).
+  && (null (p_pre p) || str_eqb (trim_left_xml (p_text p)) (p_text p)).
 Definition piece_str (p : piece) : str := p_pre p ++ p_text p ++ p_post p.
 Definition mk_br (sp : str) : xnode := XElem (mkName sp s_br) [] [].
 
@@ -66,7 +66,7 @@ Definition group_pre (g : group) : str := match g with GBr w _ => w | GText _ =>
 Definition group_ok (g : group) : bool :=
   match g with
   | GBr w _ => is_indent w
-  | GText p => piece_ok p && str_eqb (trim_left (p_text p)) (p_text p) && negb (null (trim_space (p_text p)))
+  | GText p => piece_ok p && str_eqb (trim_left_xml (p_text p)) (p_text p) && negb (blank_xml (p_text p))
   | GSpan w nm al p0 ps =>
     is_indent w && negb (is_br (x_local nm)) && piece_ok p0 && forallb (fun bp => piece_ok (snd bp)) ps
     && match tt_read_attrs al with Some _ => true | None => false end
